@@ -16,7 +16,8 @@ for p in "$@"; do
   if ! (cd "$d" && patch -s -p1 < "$p" >/dev/null 2>&1); then echo "== $p: DOES NOT APPLY"; rm -rf "$d"; continue; fi
   echo "$p" > "$d/.patchname"
 done
-ls -d "$T"/r* 2>/dev/null | xargs -P 12 -I{} sh -c 'VERIF_SEEDRUN=1 VERIF_NO_CACHE=1 ./check all --repo {} > {}/.out 2>&1; echo $? > {}/.rc'
+# patches under neutral/<prop>x/ are neutral for <prop> only (they break some other property on purpose): run that check alone
+ls -d "$T"/r* 2>/dev/null | xargs -P 12 -I{} sh -c 'w=all; case "$(cat {}/.patchname)" in */neutral/C[0-9][0-9]x/*) w=$(basename $(dirname $(cat {}/.patchname)) | cut -c1-3);; esac; VERIF_SEEDRUN=1 VERIF_NO_CACHE=1 ./check $w --repo {} > {}/.out 2>&1; echo $? > {}/.rc'
 for d in "$T"/r*; do
   [ -f "$d/.patchname" ] || continue
   n=$(grep -cE "^VIOLATION|^ANALYSIS-BROKEN|Traceback" "$d/.out")
